@@ -252,7 +252,7 @@ func (w *world) makeVariant(r *Rng, s *seenTx, source string) *genTx {
 		})
 		ecdsa, err := key.PrivateKey.ToECDSA()
 		require.NoError(w.t, err)
-		tx2, err := ethtypes.SignTx(ethtypes.NewTx(txDataOf(tx)), ethtypes.LatestSignerForChainID(w.chainID), ecdsa)
+		tx2, err := ethtypes.SignTx(ethtypes.NewTx(txDataOf(tx)), ethtypes.LatestSignerForChainID(tx.ChainId()), ecdsa) // (the original's chain id, right or wrong)
 		require.NoError(w.t, err)
 		bz2, err := tx2.MarshalBinary()
 		require.NoError(w.t, err)
